@@ -34,14 +34,34 @@ impl Ctx {
     pub fn quick(&self) -> bool {
         self.tier == Tier::Quick
     }
+    /// The budget is counted in CPU time of this part process, so that a loaded machine (other checks running next to
+    /// this one) does not silently shrink the explored space; wall time only bounds it at 5x (parts that mostly wait).
     pub fn over_budget(&self) -> bool {
-        self.started.elapsed().as_secs_f64() > self.budget_s
+        cpu_seconds() > self.budget_s || self.started.elapsed().as_secs_f64() > 5.0 * self.budget_s
     }
     pub fn run_dir(&self) -> PathBuf {
         let d = self.root.join("run");
         let _ = std::fs::create_dir_all(&d);
         d
     }
+}
+
+/// CPU time (user + system, all threads) consumed by this process so far.
+pub fn cpu_seconds() -> f64 {
+    let mut ts = libc::timespec { tv_sec: 0, tv_nsec: 0 };
+    unsafe {
+        libc::clock_gettime(libc::CLOCK_PROCESS_CPUTIME_ID, &mut ts);
+    }
+    ts.tv_sec as f64 + ts.tv_nsec as f64 / 1e9
+}
+
+/// CPU time (user + system) of another process, from /proc (None once it is gone).
+pub fn cpu_seconds_of(pid: u32) -> Option<f64> {
+    let s = std::fs::read_to_string(format!("/proc/{}/stat", pid)).ok()?;
+    let rest = &s[s.rfind(')')? + 1..];
+    let f: Vec<&str> = rest.split_whitespace().collect();
+    let ticks: f64 = f.get(11)?.parse::<f64>().ok()? + f.get(12)?.parse::<f64>().ok()?;
+    Some(ticks / unsafe { libc::sysconf(libc::_SC_CLK_TCK) } as f64)
 }
 
 #[derive(Clone, Debug)]
@@ -252,7 +272,7 @@ pub fn main(def: CheckDef) -> ! {
     }
     let jobs: usize = std::env::var("VERIF_JOBS").ok().and_then(|s| s.parse().ok()).unwrap_or(14);
     let default_budget = if ctx.quick() { 40.0 } else { 1500.0 };
-    let hard_factor = 4.0;
+    let hard_factor = 6.0;
     struct Running {
         idx: usize,
         child: std::process::Child,
@@ -284,7 +304,7 @@ pub fn main(def: CheckDef) -> ! {
                 cmd.arg("--replay-json").arg(f);
             }
             let child = cmd.spawn().expect("spawn part");
-            running.push(Running { idx: next, child, out, started: Instant::now(), hard_s: budget * hard_factor + 60.0 });
+            running.push(Running { idx: next, child, out, started: Instant::now(), hard_s: budget * hard_factor + 90.0 });
             next += 1;
         }
         std::thread::sleep(Duration::from_millis(15));
